@@ -171,3 +171,24 @@ Proof. exact NoPanicPlanProofs.uninitialised_scan_panics. Qed.
 Example pop_on_empty_heap_would_panic :
   forall pi pf ords, fst (fst (Order.next pi pf ords (Order.OState 0 1 []) [])) = Order.NPanic.
 Proof. reflexivity. Qed.
+
+(* the statement parser twin (Model/StmtParser.v: Parser.Parse with SELECT lists, AS, WHERE,
+   ORDER BY / GROUP BY / LIMIT, PUT, REMOVE, DELETE) is total on EVERY token list and for every
+   behaviour of the semantic tests run while parsing: a statement or a syntax error, never out
+   of fuel, never one of the p.tok.Pos dereferences with p.tok == nil *)
+From KV Require Model.StmtParser Proofs.StmtParserProofs.
+
+Theorem statement_parser_total :
+  forall h ts, (exists s, StmtParser.parse_with h ts = StmtParser.SOk s) \/
+               (exists p, StmtParser.parse_with h ts = StmtParser.SErr p).
+Proof. exact StmtParserProofs.parse_with_total. Qed.
+Print Assumptions statement_parser_total.
+
+(* the expression parser at the fuel it is run with: never out of fuel, never a nil dereference *)
+Theorem expression_parser_fuel_suffices :
+  forall ts, ExprParser.parse_expr_top ts <> ExprParser.PFuel /\
+             ExprParser.parse_expr_top ts <> ExprParser.PPanic /\
+             forall e rest, ExprParser.parse_expr_top ts = ExprParser.POk e rest ->
+                            List.length rest < List.length ts.
+Proof. exact StmtParserProofs.parse_expr_top_total. Qed.
+Print Assumptions expression_parser_fuel_suffices.
